@@ -217,8 +217,7 @@ func (e *Executor) proposalBatches(proposals []*proposal.Proposal) ([]*Batch, er
 		} else {
 			propGasLimit = e.transferGasCost
 		}
-		currentBatch.gasLimit += propGasLimit
-		if currentBatch.gasLimit >= e.transactionMaxGas {
+		if currentBatch.gasLimit+propGasLimit >= e.transactionMaxGas {
 			currentBatch = &Batch{
 				proposals: make([]*transfer.TransferProposal, 0),
 				gasLimit:  0,
@@ -226,6 +225,7 @@ func (e *Executor) proposalBatches(proposals []*proposal.Proposal) ([]*Batch, er
 			batches = append(batches, currentBatch)
 		}
 
+		currentBatch.gasLimit += propGasLimit
 		currentBatch.proposals = append(currentBatch.proposals, transferProposal)
 	}
 
